@@ -133,6 +133,12 @@ Definition enc_ssl2_server_hello (hit cert_type version : Z) (certificate : byte
   enc_uint 1 hit ++ enc_uint 1 cert_type ++ enc_uint 2 version ++ enc_uint 2 (zlen certificate) ++ enc_uint 2 (3 * zlen ciphers)
   ++ enc_uint 2 (zlen connection_id) ++ certificate ++ concat (map (enc_uint 3) ciphers) ++ connection_id.
 
+(* SSL 2.0 record, two-byte header (the form every implementation writes): the most significant bit set, a 15-bit record length
+   (0..32767), then the record: the message type byte and the message *)
+Definition enc_ssl2_record (msg_type : Z) (msg : bytes) : option bytes :=
+  let n := 1 + zlen msg in
+  if n <? 32768 then Some (enc_uint 2 (32768 + n) ++ enc_uint 1 msg_type ++ msg) else None.
+
 (* RFC 5246 7.4.4 (TLS 1.2) and RFC 2246 / 4346 7.4.4 (TLS 1.0 / 1.1, no supported_signature_algorithms):
      struct { ClientCertificateType certificate_types<1..2^8-1>;
               SignatureAndHashAlgorithm supported_signature_algorithms<2..2^16-2>;
